@@ -1913,3 +1913,30 @@ Proof.
   rewrite andb_false_r. rewrite Hl, N.eqb_refl. cbn [negb]. rewrite Hc. cbn [negb].
   eexists. eexists. cbn [tc_out tc_emit]. split; [left; reflexivity|]. cbn. auto.
 Qed.
+
+(* ---- the consumer's verdict on a block is used only under a live context of the position the node is in (C15, F15) ---- *)
+Section SpiContext.
+Variable c : ncfg. Variable wm : option hv. Variable shut : bool.
+
+(* a PREPREPARE has an effect only in its own view and under a live context of that position *)
+Lemma handle_pp_effect x r s b : handle_pp c wm shut x r s b <> x ->
+  tc_v x = r_view r /\ ctx_ok wm shut (r_height r, tc_v x) = true /\ validProposal (c_me c) (r_height r) b (r_hash r) = true.
+Proof.
+  unfold handle_pp. destruct (negb (validate_pp c (tc_t x) r s)); [congruence|].
+  destruct (N.eqb_spec (tc_v x) (r_view r)) as [E|E]; cbn [negb]; [|congruence]. rewrite <- E.
+  destruct (ctx_ok wm shut (r_height r, tc_v x)); cbn [negb]; [|congruence].
+  destruct (validProposal _ _ _ _); cbn [negb]; [|congruence]. auto.
+Qed.
+
+(* a NEW_VIEW whose votes carry no lock has an effect only if the consumer accepted the fresh block under a live
+   context of the position the node is in when it validates *)
+Lemma handle_nv_fresh_effect x nty ninst nh nvw vs sg pp pps b :
+  latest_vote vs = None -> handle_nv c wm shut x nty ninst nh nvw vs sg pp pps b <> x ->
+  ctx_ok wm shut (t_h (tc_t x), tc_v x) = true /\ validProposal (c_me c) (r_height pp) b (r_hash pp) = true.
+Proof.
+  intros L. unfold handle_nv. rewrite L.
+  destruct (ctx_ok wm shut (t_h (tc_t x), tc_v x)); [|intro Hc; exfalso; apply Hc; repeat (cbn [negb]; match goal with |- (if ?g then x else _) = x => first [reflexivity | destruct g; [reflexivity|]] end); reflexivity].
+  destruct (validProposal _ _ _ _); [auto|].
+  intro Hc; exfalso; apply Hc. cbn [negb]. repeat (cbn [negb]; match goal with |- (if ?g then x else _) = x => first [reflexivity | destruct g; [reflexivity|]] end); reflexivity.
+Qed.
+End SpiContext.
